@@ -616,6 +616,13 @@ func init() {
 			if !okc {
 				ex.unsupported("base64 decode of a symbolic non-ordinal string")
 			}
+			// a token the modelled codec produced for a concrete (non-ordinal) key
+			for _, e := range ex.tokenTable {
+				if e.tok == t {
+					done(TupleV{e.mm, IfaceV{}})
+					return
+				}
+			}
 			if _, err := base64.StdEncoding.DecodeString(sv); err != nil {
 				bad()
 				return
@@ -658,7 +665,11 @@ func init() {
 				if c, okc := concStr(key); okc {
 					k, okp := parseOrd(c)
 					if !okp {
-						ex.unsupported("page token for a key that is not an ordinal string")
+						// a concrete key that is not an ordinal: a concrete token, injective in the key
+						tok := ex.strC("vt-page-token:" + c)
+						ex.tokenTable = append(ex.tokenTable, tokenEntry{tok: tok, mm: mm})
+						done(tok)
+						return
 					}
 					key = B.BVC(k, OrdW)
 				} else {
@@ -740,6 +751,12 @@ func init() {
 		done(ex.strSlice(fn.Signature.Results().At(0).Type(), strings.Split(a, b)))
 	})
 	reg("strings.ToLower|strings.ToUpper|strings.TrimSpace", func(ex *Exec, g *G, fn *ssa.Function, args []Value, done func(Value)) {
+		if t, isT := args[0].(*smt.Term); isT && isOrd(t) && !t.IsConst() && fn.Name() != "ToUpper" {
+			// ordinal strings stand for "" or 16 lower-case hex digits (what the native replay passes): already
+			// lower-case and free of spaces. Strings with upper-case letters are covered by concrete-name harnesses.
+			done(t)
+			return
+		}
 		a, ok1 := concStr(args[0])
 		if !ok1 {
 			ex.unsupported(fn.Name() + " on symbolic string")
